@@ -265,6 +265,11 @@ pub fn exec(op: &str, a: &[Vec<u8>]) -> Out {
         // [type, 32 bytes] -> encoding after zeroize()
         "mem.zeroize" => {
             let b = need!(b32(&a[1]));
+            // the storage itself, not only what the accessors show (a point whose T is left behind still
+            // compresses to the identity and still compares equal to it)
+            fn raw<T>(t: &T) -> Vec<u8> {
+                unsafe { std::slice::from_raw_parts(t as *const T as *const u8, std::mem::size_of::<T>()).to_vec() }
+            }
             match a[0][0] {
                 0 => {
                     let mut s = Scalar::from_bytes_mod_order(b);
@@ -276,6 +281,7 @@ pub fn exec(op: &str, a: &[Vec<u8>]) -> Out {
                     p.zeroize();
                     let mut o = p.compress().to_bytes().to_vec();
                     o.push((p == EdwardsPoint::identity()) as u8);
+                    o.push((raw(&p) == raw(&EdwardsPoint::identity())) as u8);
                     Out::Ok(o)
                 }
                 2 => {
@@ -288,6 +294,7 @@ pub fn exec(op: &str, a: &[Vec<u8>]) -> Out {
                     p.zeroize();
                     let mut o = p.compress().to_bytes().to_vec();
                     o.push((p == RistrettoPoint::identity()) as u8);
+                    o.push((raw(&p) == raw(&RistrettoPoint::identity())) as u8);
                     Out::Ok(o)
                 }
                 4 => {
@@ -303,7 +310,43 @@ pub fn exec(op: &str, a: &[Vec<u8>]) -> Out {
                 6 => {
                     let mut k = x25519_dalek::StaticSecret::from(b);
                     k.zeroize();
-                    Out::Ok(k.to_bytes().to_vec())
+                    let mut o = k.to_bytes().to_vec();
+                    o.push(raw(&k).iter().all(|x| *x == 0) as u8);
+                    Out::Ok(o)
+                }
+                7 => {
+                    let mut k = x25519_dalek::EphemeralSecret::random_from_rng(ByteRng::new(&b));
+                    k.zeroize();
+                    Out::Ok(raw(&k))
+                }
+                8 => {
+                    let mut k = x25519_dalek::ReusableSecret::random_from_rng(ByteRng::new(&b));
+                    k.zeroize();
+                    Out::Ok(raw(&k))
+                }
+                9 => {
+                    let k = x25519_dalek::StaticSecret::from(b);
+                    let mut sh = k.diffie_hellman(&x25519_dalek::PublicKey::from([9u8; 32]));
+                    sh.zeroize();
+                    Out::Ok(raw(&sh))
+                }
+                10 => {
+                    use group::cofactor::CofactorGroup;
+                    let p = need!(CompressedEdwardsY(b).decompress());
+                    let mut s: curve25519_dalek::edwards::SubgroupPoint = CofactorGroup::clear_cofactor(&p);
+                    s.zeroize();
+                    let id = <curve25519_dalek::edwards::SubgroupPoint as group::Group>::identity();
+                    Out::Ok(vec![(s == id) as u8, (raw(&s) == raw(&id)) as u8])
+                }
+                11 => {
+                    let mut p = x25519_dalek::PublicKey::from(b);
+                    p.zeroize();
+                    Out::Ok(p.to_bytes().to_vec())
+                }
+                12 => {
+                    let mut s = Scalar::from_bytes_mod_order(b);
+                    s.zeroize();
+                    Out::Ok(raw(&s))
                 }
                 _ => Out::Rej,
             }
